@@ -757,14 +757,25 @@ func (p *C12) Evaluate(env *Env, c *Case) (*Outcome, error) {
 	return out, nil
 }
 
+// setInput gives every execution of the family the new input, wherever that
+// execution gets its input from (stdin, stdin behind a consumed header, a
+// FILE under whatever name): a family whose members read different inputs is
+// not an instance of the property.
 func setInput(c *Case, data []byte) {
+	old := inputOf(c)
 	for i := range c.Steps {
 		st := &c.Steps[i]
 		if st.Stdin != nil {
-			st.Stdin.Data = data
+			if st.Stdin.Offset > 0 && st.Stdin.Offset <= len(st.Stdin.Data) {
+				st.Stdin.Data = append(append([]byte{}, st.Stdin.Data[:st.Stdin.Offset]...), data...)
+			} else {
+				st.Stdin.Data = data
+			}
 		}
-		if f, ok := st.Files[inPath]; ok {
-			f.Data = data
+		for name, f := range st.Files {
+			if f != nil && (name == inPath || (len(old) > 0 && bytes.Equal(f.Data, old))) {
+				f.Data = data
+			}
 		}
 	}
 }
@@ -772,6 +783,9 @@ func setInput(c *Case, data []byte) {
 func inputOf(c *Case) []byte {
 	for i := range c.Steps {
 		if c.Steps[i].Stdin != nil {
+			if o := c.Steps[i].Stdin.Offset; o > 0 && o <= len(c.Steps[i].Stdin.Data) {
+				return c.Steps[i].Stdin.Data[o:]
+			}
 			return c.Steps[i].Stdin.Data
 		}
 		if f, ok := c.Steps[i].Files[inPath]; ok {
